@@ -147,6 +147,8 @@ pub enum Perturb {
     ReadThroughClone { j: usize },
     /// the handle in `slot` is replaced by a clone of itself right after event `j`
     RebindSelf { j: usize, slot: Slot },
+    /// right after the pass at event `j` the program fetches the gradient of `slot` and keeps the clone
+    KeepGradientClone { j: usize, slot: Slot },
 }
 
 fn slots_named(e: &Ev) -> Vec<Slot> {
@@ -235,7 +237,16 @@ pub fn perturbations(trace: &[Ev], done: &[bool]) -> Vec<Perturb> {
                     }
                 }
             }
-            Ev::Pass { via_clone: false, .. } => ps.push(Perturb::PassFromClone { j }),
+            Ev::Pass { via_clone: false, root, .. } => {
+                ps.push(Perturb::PassFromClone { j });
+                ps.push(Perturb::KeepGradientClone { j, slot: *root });
+                for (s, l) in &last {
+                    if *l > j && *s != *root && (*s + j) % 3 == 0 {
+                        ps.push(Perturb::KeepGradientClone { j, slot: *s });
+                    }
+                }
+            }
+            Ev::Pass { via_clone: true, root, .. } => ps.push(Perturb::KeepGradientClone { j, slot: *root }),
             Ev::GradRead { via_clone: false, .. } => ps.push(Perturb::ReadThroughClone { j }),
             _ => {}
         }
@@ -303,6 +314,7 @@ pub fn apply(trace: &[Ev], ps: &[Perturb]) -> (Vec<(usize, Ev)>, Vec<(usize, Slo
                 }
                 Perturb::DropAfter { j, slot } if *j == i => post.push(Ev::DropSlot { slot: *slot }),
                 Perturb::RebindSelf { j, slot } if *j == i => post.push(Ev::Rebind { slot: *slot }),
+                Perturb::KeepGradientClone { j, slot } if *j == i => post.push(Ev::GradRead { slot: *slot, via_clone: false }),
                 _ => {}
             }
         }
@@ -395,7 +407,7 @@ pub fn c12_compare(base: &Sim, base_final: &[ObsRec], trace: &[Ev], ps: &[Pertur
 pub fn c12(out: &RunOut, seed: u64, exhaustive: bool) -> (Vec<Violation>, u64, bool, Vec<Perturb>) {
     let mut viols = Vec::new();
     let trace = &out.trace;
-    if out.sim.dead || out.sim.passes.is_empty() || has_update(trace) {
+    if out.sim.dead || out.sim.passes.is_empty() || trace.iter().any(|e| matches!(e, Ev::TrainOpen { .. })) {
         return (viols, 0, false, vec![]);
     }
     // which events executed (not skipped) in the base run: recompute by replaying with a marker
